@@ -1,8 +1,13 @@
 /-
-  C14 — lookup and reference functions return the addressed element.  Property theorems only.
+  C14 — lookup and reference functions return the addressed element.  Property theorems only
+  (helper lemmas: E2P/Lemmas/LookupOrder, LookupScan, LookupIndex, LookupCols).
 -/
 import E2P.Model.Lookup
 import E2P.Spec.LookupSpec
+import E2P.Lemmas.LookupOrder
+import E2P.Lemmas.LookupScan
+import E2P.Lemmas.LookupIndex
+import E2P.Lemmas.LookupCols
 
 namespace E2P.C14
 open E2P
@@ -19,7 +24,9 @@ theorem scanExact_spec (ci : Bool) (k : LKind) (lookup : Val) (keys : List Val) 
     by_cases h : (eligible k key && keyEq ci key lookup) = true
     · simp [h]
     · simp only [h, Bool.false_eq_true, if_false, ih (i + 1)]
-      cases List.findIdx? (fun key => eligible k key && keyEq ci key lookup) rest <;> simp <;> omega
+      cases List.findIdx? (fun key => eligible k key && keyEq ci key lookup) rest with
+      | none => simp
+      | some j => simp; omega
 
 /-- on a key column of the lookup value's kind, eligibility filters nothing -/
 theorem findIdx_eligible (ci : Bool) (k : LKind) (lookup : Val) (keys : List Val)
@@ -44,7 +51,6 @@ theorem match_exact_first (lookup : Val) (rows keys : List Val) (hk : keysOf row
     simp only [matchFn, hkind, hk, ht, Bool.not_true, Bool.false_eq_true, if_false, if_true]
     rw [scanExact_spec, findIdx_eligible _ _ _ _ he.2]
     simp only [specFirstEqual]
-    cases List.findIdx? (fun key => keyEq true key lookup) keys <;> simp
 
 /-- the position returned by an exact scan holds an equal key, and no earlier key is equal -/
 theorem first_equal_is_first (ci : Bool) (lookup : Val) (keys : List Val) (i : Nat)
@@ -102,16 +108,20 @@ theorem scanApprox_takeWhile (ok : Val → Bool) (k : LKind) (keys : List Val) (
     simp only [scanApprox, h.1, if_true, List.takeWhile_cons]
     by_cases hok : ok key = true
     · simp only [hok, if_true, List.length_cons, ih (i + 1) (some (i + 1)) h.2]
-      split <;> simp <;> omega
+      have hne : ¬ ((List.takeWhile ok rest).length + 1 = 0) := by omega
+      rw [if_neg hne]
+      by_cases h0 : (List.takeWhile ok rest).length = 0
+      · rw [if_pos h0, h0]
+      · rw [if_neg h0]; congr 1; omega
     · simp [hok]
 
 /-- on ascending keys the acceptable keys form a prefix: every key after the first unacceptable one is
-    unacceptable too (`ok` = "key ≤ lookup"; follows from transitivity of ≤).  Then the scan result is the
-    **last** row whose key is not greater than the lookup value — the last row of the column when the
-    lookup value exceeds every key. -/
+    unacceptable too (`ok` = "key ≤ lookup"; follows from transitivity of ≤, see `match_approx_last_le`).
+    Then the scan result is the **last** row whose key is not greater than the lookup value — the last row
+    of the column when the lookup value exceeds every key. -/
 theorem approx_is_last_ok (ok : Val → Bool) (k : LKind) (keys : List Val)
     (h : keys.all (eligible k) = true)
-    (hprefix : ∀ i j ki kj, i < j → keys[i]? = some ki → keys[j]? = some kj → ok kj = true → ok ki = true) :
+    (hprefix : ∀ (i j : Nat) ki kj, i < j → keys[i]? = some ki → keys[j]? = some kj → ok kj = true → ok ki = true) :
     ∀ r, scanApprox ok k keys 0 none = r →
       (match r with
        | none => ∀ key ∈ keys, ok key = false
@@ -119,62 +129,301 @@ theorem approx_is_last_ok (ok : Val → Bool) (k : LKind) (keys : List Val)
                    (∀ j key, n ≤ j → keys[j]? = some key → ok key = false)) := by
   intro r hr
   rw [scanApprox_takeWhile ok k keys 0 none h] at hr
-  have hlen := List.length_takeWhile_le ok keys
+  have hlen := LookupOrder.length_takeWhile_le ok keys
+  -- every key at or after the end of the prefix is unacceptable
+  have hafter : ∀ j key, (keys.takeWhile ok).length ≤ j → keys[j]? = some key → ok key = false := by
+    intro j key hj hkey
+    obtain ⟨hjlt, _⟩ := List.getElem?_eq_some_iff.mp hkey
+    have hn : (keys.takeWhile ok).length < keys.length := by omega
+    have hb := LookupOrder.takeWhile_boundary_false ok keys _ (List.getElem?_eq_getElem hn)
+    by_cases hje : j = (keys.takeWhile ok).length
+    · subst hje
+      exact LookupOrder.takeWhile_boundary_false ok keys key hkey
+    · cases c : ok key with
+      | false => rfl
+      | true =>
+        have := hprefix (keys.takeWhile ok).length j _ key (by omega) (List.getElem?_eq_getElem hn) hkey c
+        rw [hb] at this; cases this
   by_cases h0 : (keys.takeWhile ok).length = 0
   · simp only [h0, if_true] at hr
     subst hr
-    simp only
     intro key hkey
-    -- the first key is not ok, hence (prefix property) none is
-    cases keys with
-    | nil => simp at hkey
-    | cons k0 rest =>
-      have hk0 : ok k0 = false := by
-        by_cases c : ok k0 = true
-        · simp [List.takeWhile_cons, c] at h0
-        · simpa using c
-      obtain ⟨j, hj, hjk⟩ := List.getElem_of_mem hkey
-      cases j with
-      | zero => simp at hjk; rw [← hjk]; exact hk0
-      | succ j' =>
-        by_cases c : ok key = true
-        · have := hprefix 0 (j' + 1) k0 key (by omega) (by simp) (by simp [hj, hjk]) c
-          rw [hk0] at this; cases this
-        · simpa using c
+    obtain ⟨j, hj, hjk⟩ := List.getElem_of_mem hkey
+    exact hafter j key (by omega) (by rw [List.getElem?_eq_getElem hj, hjk])
   · simp only [h0, if_false, Nat.zero_add] at hr
     subst hr
-    simp only
-    refine ⟨by omega, hlen, ?_, ?_⟩
-    · intro j key hj hkey
-      have hj' : j < (keys.takeWhile ok).length := hj
-      have e : (keys.takeWhile ok)[j]? = keys[j]? := by
-        rw [List.getElem?_eq_getElem hj', List.getElem?_eq_getElem (by omega)]
-        congr 1
-        exact List.getElem_takeWhile ..
-      have hm : (keys.takeWhile ok)[j] ∈ keys.takeWhile ok := List.getElem_mem hj'
-      have := (List.mem_takeWhile_imp hm)
-      rw [List.getElem?_eq_getElem hj'] at e
-      rw [← e] at hkey
-      rw [← Option.some.inj hkey]; exact this
-    · intro j key hj hkey
-      -- key at position n (the first one not taken) is not ok; everything later is not ok by the prefix property
-      have hjlt : j < keys.length := by
-        by_contra c
-        rw [List.getElem?_eq_none (by omega)] at hkey; cases hkey
-      by_cases c : ok key = true
-      · exfalso
-        have hn : (keys.takeWhile ok).length < keys.length := by omega
-        have hnot : ok keys[(keys.takeWhile ok).length] = false := by
-          have := List.takeWhile_ne_nil_iff_exists_getElem.mp  (by exact (fun h => h0 (by simp [h])) : keys.takeWhile ok ≠ [])
-          simpa using List.not_of_length_takeWhile_lt hn
-        by_cases hje : j = (keys.takeWhile ok).length
-        · subst hje
-          rw [List.getElem?_eq_getElem hjlt] at hkey
-          rw [Option.some.inj hkey] at hnot
-          rw [hnot] at c; cases c
-        · have := hprefix (keys.takeWhile ok).length j _ key (by omega) (List.getElem?_eq_getElem hn) hkey c
-          rw [hnot] at this; cases this
-      · simpa using c
+    exact ⟨by omega, hlen, LookupOrder.takeWhile_getElem?_true ok keys, hafter⟩
+
+/-- **MATCH(v, keys, 1)** on ascending keys = 1-based position of the last key not greater than `v`, else #N/A.
+    (`keyLe` is transitive on keys of one kind — numbers: the order of ℚ; texts: the code-point order of the
+    lower-cased texts — hence on an ascending column the keys ≤ `v` form a prefix, whose end the scan returns.) -/
+theorem match_approx_last_le (lookup : Val) (rows keys : List Val) (hk : keysOf rows = some keys)
+    (he : allEligible lookup keys = true) (ht : textsModelled (lookup :: keys) = true)
+    (hs : sortedAsc true keys = true) :
+    matchFn lookup (.list rows) 1 = .ok (idxOrNA (specLastLe true lookup keys)) := by
+  obtain ⟨k, hkind, _, hel⟩ := (LookupScan.allEligible_iff lookup keys).mp he
+  have hall : keys.all (eligible k) = true := List.all_eq_true.mpr hel
+  have h10 : ¬ ((1 : Int) = 0) := by decide
+  have h01 : (0 : Int) < 1 := by decide
+  simp only [matchFn, hkind, hk, ht, Bool.not_true, Bool.false_eq_true, if_false, h10, h01, if_true]
+  rw [scanApprox_takeWhile _ k keys 0 none hall,
+    LookupOrder.specLastLe_eq_prefix true k lookup hkind keys
+      (fun x hx => LookupOrder.kind_of_eligible k x (hel x hx)) hs]
+  simp only [Nat.zero_add]
+
+/-- the lookup value is not smaller than any key: MATCH(v, keys, 1) is the last row of the column
+    (ascending order is not even needed for this case) -/
+theorem match_approx_above_all (lookup : Val) (rows keys : List Val) (hk : keysOf rows = some keys)
+    (he : allEligible lookup keys = true) (ht : textsModelled (lookup :: keys) = true)
+    (hall : ∀ key ∈ keys, keyLe true key lookup = true) (hne : keys ≠ []) :
+    matchFn lookup (.list rows) 1 = .ok (.int keys.length) := by
+  obtain ⟨k, hkind, _, hel⟩ := (LookupScan.allEligible_iff lookup keys).mp he
+  have hall' : keys.all (eligible k) = true := List.all_eq_true.mpr hel
+  have h10 : ¬ ((1 : Int) = 0) := by decide
+  have h01 : (0 : Int) < 1 := by decide
+  have hlen : keys.length ≠ 0 := fun h => hne (List.length_eq_zero_iff.mp h)
+  simp only [matchFn, hkind, hk, ht, Bool.not_true, Bool.false_eq_true, if_false, h10, h01, if_true]
+  rw [scanApprox_takeWhile _ k keys 0 none hall',
+    LookupOrder.takeWhile_eq_self (fun key => keyLe true key lookup) keys hall, if_neg hlen]
+  simp only [Nat.zero_add, idxOrNA]
+
+/-! ### XMATCH, linear search modes -/
+
+/-- **XMATCH(v, keys, 0, 1)**: first to last — the first equal key -/
+theorem xmatch_first (lookup : Val) (rows keys : List Val) (hk : keysOf rows = some keys)
+    (he : allEligible lookup keys = true) (ht : textsModelled (lookup :: keys) = true) :
+    xmatchFn lookup (.list rows) 0 1 = .ok (idxOrNA (specFirstEqual true lookup keys)) := by
+  simp only [xmatchFn, if_true]
+  exact match_exact_first lookup rows keys hk he ht
+
+/-- **XMATCH(v, keys, 0, -1)**: last to first — the last equal key -/
+theorem xmatch_last (lookup : Val) (rows keys : List Val) (hk : keysOf rows = some keys)
+    (he : allEligible lookup keys = true) (ht : textsModelled (lookup :: keys) = true) :
+    xmatchFn lookup (.list rows) 0 (-1) = .ok (idxOrNA (specLastEqual true lookup keys)) := by
+  have hm := match_exact_first lookup rows.reverse keys.reverse (LookupScan.keysOf_reverse rows keys hk)
+    (by rw [LookupScan.allEligible_reverse]; exact he) (by rw [LookupScan.textsModelled_reverse]; exact ht)
+  have hlen := LookupScan.keysOf_length rows keys hk
+  have h1 : ¬ ((-1 : Int) = 1) := by decide
+  simp only [xmatchFn, h1, if_false, if_true, hm, specFirstEqual, specLastEqual]
+  cases hf : List.findIdx? (fun key => keyEq true key lookup) keys.reverse with
+  | none => rfl
+  | some j =>
+    obtain ⟨hj, _, _⟩ := List.findIdx?_eq_some_iff_getElem.mp hf
+    rw [List.length_reverse] at hj
+    simp only [Option.map_some, idxOrNA]
+    congr 2
+    omega
+
+/-! ### VLOOKUP: the result cell of the row found (texts are compared case-sensitively by `_vlookup`) -/
+
+/-- **VLOOKUP(v, table, col, FALSE)** = the `col`-th cell of the first row whose key equals `v`, else #N/A -/
+theorem vlookup_exact_first (lookup : Val) (rows keys : List Val) (col : Int) (hk : keysOf rows = some keys)
+    (he : allEligible lookup keys = true) (ht : textsModelled (lookup :: keys) = true) (hc : 1 ≤ col)
+    (hw : ∀ row ∈ rows, ∃ cells, row = .list cells ∧ col.toNat ≤ cells.length) :
+    match specFirstEqual false lookup keys with
+    | none => vlookupFn lookup (.list rows) col (.bool false) = .ok errNA
+    | some i => ∃ cells v, rows[i - 1]? = some (.list cells) ∧ cells[col.toNat - 1]? = some v ∧
+        vlookupFn lookup (.list rows) col (.bool false) = .ok v := by
+  obtain ⟨k, hkind, _, hel⟩ := (LookupScan.allEligible_iff lookup keys).mp he
+  have hve : ∀ key ∈ keys, vEligible lookup key = true :=
+    fun key hkey => LookupScan.vEligible_of_eligible lookup key k hkind (hel key hkey)
+  have hfn : vlookupFn lookup (.list rows) col (.bool false) = vlookupExact lookup col rows := by
+    simp [vlookupFn, hkind, LookupScan.keysOf_filterMap rows keys hk, ht, truthy]
+  rw [hfn, LookupScan.vlookupExact_spec lookup col rows keys hk hve]
+  unfold specFirstEqual
+  cases hf : List.findIdx? (fun key => keyEq false key lookup) keys with
+  | none => rfl
+  | some j =>
+    obtain ⟨hj, _, _⟩ := List.findIdx?_eq_some_iff_getElem.mp hf
+    have hj' : j < rows.length := by rw [LookupScan.keysOf_length rows keys hk]; exact hj
+    obtain ⟨cells, hrow, hcw⟩ := hw rows[j] (List.getElem_mem hj')
+    obtain ⟨v, hv1, hv2⟩ := LookupScan.rowCol_ok cells col hc hcw
+    refine ⟨cells, v, ?_, hv1, ?_⟩
+    · simp [hj', hrow]
+    · simp [List.getD_eq_getElem?_getD, hj', hrow, hv2]
+
+/-- **VLOOKUP(v, table, col, TRUE)** on ascending keys = the `col`-th cell of the last row whose key is not
+    greater than `v`, else #N/A -/
+theorem vlookup_approx_last_le (lookup : Val) (rows keys : List Val) (col : Int) (hk : keysOf rows = some keys)
+    (he : allEligible lookup keys = true) (ht : textsModelled (lookup :: keys) = true) (hc : 1 ≤ col)
+    (hw : ∀ row ∈ rows, ∃ cells, row = .list cells ∧ col.toNat ≤ cells.length)
+    (hs : sortedAsc false keys = true) :
+    match specLastLe false lookup keys with
+    | none => vlookupFn lookup (.list rows) col (.bool true) = .ok errNA
+    | some i => ∃ cells v, rows[i - 1]? = some (.list cells) ∧ cells[col.toNat - 1]? = some v ∧
+        vlookupFn lookup (.list rows) col (.bool true) = .ok v := by
+  obtain ⟨k, hkind, _, hel⟩ := (LookupScan.allEligible_iff lookup keys).mp he
+  have hve : ∀ key ∈ keys, vEligible lookup key = true :=
+    fun key hkey => LookupScan.vEligible_of_eligible lookup key k hkind (hel key hkey)
+  have hfn : vlookupFn lookup (.list rows) col (.bool true) = vlookupApprox lookup col rows (.ok errNA) := by
+    simp [vlookupFn, hkind, LookupScan.keysOf_filterMap rows keys hk, ht, truthy]
+  have hrc : ∀ row ∈ rows, ∃ v, rowCol row col = .ok v := by
+    intro row hrow
+    obtain ⟨cells, rfl, hcw⟩ := hw row hrow
+    obtain ⟨v, _, hv⟩ := LookupScan.rowCol_ok cells col hc hcw
+    exact ⟨v, hv⟩
+  rw [hfn, LookupScan.vlookupApprox_spec lookup col rows keys (.ok errNA) hk hve hrc,
+    LookupOrder.specLastLe_eq_prefix false k lookup hkind keys
+      (fun x hx => LookupOrder.kind_of_eligible k x (hel x hx)) hs]
+  have hlen := LookupOrder.length_takeWhile_le (fun key => keyLe false key lookup) keys
+  cases hn : (List.takeWhile (fun key => keyLe false key lookup) keys).length with
+  | zero => rfl
+  | succ n =>
+    rw [hn] at hlen
+    have hn' : n < rows.length := by rw [LookupScan.keysOf_length rows keys hk]; omega
+    obtain ⟨cells, hrow, hcw⟩ := hw rows[n] (List.getElem_mem hn')
+    obtain ⟨v, hv1, hv2⟩ := LookupScan.rowCol_ok cells col hc hcw
+    simp only [Nat.succ_ne_zero, if_false]
+    refine ⟨cells, v, ?_, hv1, ?_⟩
+    · simp [hn', hrow]
+    · simp [List.getD_eq_getElem?_getD, hn', hrow, hv2]
+
+/-! ### INDEX -/
+
+/-- **INDEX(area, r, c)** with both indices ≥ 1 = the cell in row `r`, column `c` of the rectangular area;
+    '#REF!' when `r` or `c` is outside (`specIndex`).  The cells are not one-element lists (a cell is a scalar;
+    `_index` would unwrap a one-element list result). -/
+theorem index_spec (rs : List (List Val)) (w : Nat) (r c : Int) (hne : rs ≠ [])
+    (hrect : ∀ row ∈ rs, row.length = w) (hr : 1 ≤ r) (hc : 1 ≤ c)
+    (hcells : ∀ row ∈ rs, ∀ x ∈ row, ∀ y, x ≠ .list [y]) :
+    ∃ v, specIndex rs r c = some v ∧ indexFn (.list (rs.map .list)) (.int r) (.int c) = .ok v := by
+  unfold indexFn
+  simp only [reduceCtorEq, and_false, if_false]
+  rw [LookupIndex.asRows_map _ (fun _ => by rfl) rs]
+  simp only [LookupIndex.isEmpty_false rs hne, Bool.false_eq_true, if_false,
+    LookupIndex.headD_length rs w hne hrect]
+  have hr0 : ¬ r < 0 := by omega
+  have hc0 : ¬ c < 0 := by omega
+  have hr1 : r ≠ 0 := by omega
+  have hc1 : c ≠ 0 := by omega
+  simp only [specIndex, hr0, hc0, hr1, hc1, or_self, if_false, decide_false, Bool.false_or]
+  generalize hi : (r - 1).toNat = i
+  generalize hj : (c - 1).toNat = j
+  by_cases hrl : (rs.length : Int) < r
+  · have : rs[i]? = none := by
+      rw [List.getElem?_eq_none_iff]; omega
+    simp [hrl, this]
+  · have hlt : i < rs.length := by omega
+    have hrow : rs[i]? = some rs[i] := List.getElem?_eq_getElem hlt
+    have hmem : rs[i] ∈ rs := List.getElem_mem hlt
+    generalize rs[i] = row at hrow hmem
+    have hw := hrect row hmem
+    simp only [hrl, hrow, decide_false, Bool.false_or]
+    by_cases hcl : (w : Int) < c
+    · have : row[j]? = none := by
+        rw [List.getElem?_eq_none_iff]; omega
+      simp [hcl, this]
+    · have hlt' : j < row.length := by omega
+      have hcell : row[j]? = some row[j] := List.getElem?_eq_getElem hlt'
+      have hmem' : row[j] ∈ row := List.getElem_mem hlt'
+      generalize row[j] = v at hcell hmem'
+      have hv := hcells row hmem v hmem'
+      refine ⟨v, by simp [hcell], ?_⟩
+      simp only [hcl, decide_false, Bool.false_eq_true, if_false, List.mapM_cons, List.mapM_nil, hcell,
+        Option.pure_def, Option.bind_eq_bind, Option.bind_some]
+      cases v with
+      | list l =>
+        match l, hv with
+        | [], _ => rfl
+        | [y], hv => exact absurd rfl (hv y)
+        | _ :: _ :: _, _ => rfl
+      | _ => rfl
+
+/-- a negative row or column number: '#REF!' -/
+theorem index_negative_ref (rs : List (List Val)) (r c : Int) (h : r < 0 ∨ c < 0) :
+    indexFn (.list (rs.map .list)) (.int r) (.int c) = .ok errRef := by
+  unfold indexFn
+  simp only [reduceCtorEq, and_false, if_false]
+  rw [LookupIndex.asRows_map _ (fun _ => by rfl) rs]
+  simp only
+  split
+  · rfl
+  · rcases h with h | h <;> simp [h]
+
+/-- a row or column number beyond the area: '#REF!' -/
+theorem index_outside_ref (rs : List (List Val)) (w : Nat) (r c : Int) (hne : rs ≠ [])
+    (hrect : ∀ row ∈ rs, row.length = w) (h : (rs.length : Int) < r ∨ (w : Int) < c) :
+    indexFn (.list (rs.map .list)) (.int r) (.int c) = .ok errRef := by
+  unfold indexFn
+  simp only [reduceCtorEq, and_false, if_false]
+  rw [LookupIndex.asRows_map _ (fun _ => by rfl) rs]
+  simp only [LookupIndex.isEmpty_false rs hne, Bool.false_eq_true, if_false,
+    LookupIndex.headD_length rs w hne hrect]
+  rcases h with h | h <;> simp [h]
+
+/-- **INDEX(column, i)** with one index over a column vector = its `i`-th element
+    (a one-cell column takes the index as a column number; the cell must then not be a one-element list) -/
+theorem index_column (vals : List Val) (i : Int) (h1 : 1 ≤ i) (h2 : i ≤ vals.length)
+    (hlen : 2 ≤ vals.length ∨ ∀ v ∈ vals, ∀ y, v ≠ .list [y]) :
+    ∃ v, vals[(i - 1).toNat]? = some v ∧
+      indexFn (.list (vals.map fun v => .list [v])) (.int i) .none = .ok v := by
+  have hmm : (vals.map fun v => Val.list [v]) = (vals.map fun v => [v]).map Val.list := by
+    simp [List.map_map, Function.comp_def]
+  rw [hmm]
+  generalize hj : (i - 1).toNat = j
+  have hlt : j < vals.length := by omega
+  refine ⟨vals[j], List.getElem?_eq_getElem hlt, ?_⟩
+  have hemp : (vals.map fun v => [v]).isEmpty = false := by
+    cases vals with
+    | nil => simp at hlt
+    | cons a t => rfl
+  unfold indexFn
+  simp only [and_true]
+  rw [LookupIndex.asRows_map _ (fun _ => by rfl)]
+  simp only [hemp, Bool.false_eq_true, if_false, List.length_map]
+  by_cases hl1 : vals.length = 1
+  · obtain ⟨a, rfl⟩ := List.length_eq_one_iff.mp hl1
+    have hi : i = 1 := by simp at h2; omega
+    have hj0 : j = 0 := by simp at hlt; exact hlt
+    subst hi hj0
+    have ha : ∀ y, a ≠ .list [y] := by
+      rcases hlen with h | h
+      · simp at h
+      · exact h a (by simp)
+    simp only [List.length_cons, List.length_nil, if_true]
+    simp only [List.map_cons, List.map_nil, List.headD_cons, List.length_cons, List.length_nil]
+    have hp : (fun cs : List Val => if (1 : Int) = 0 then some (Val.list cs) else cs[((1 : Int) - 1).toNat]?) =
+        fun cs => cs[0]? := by
+      funext cs; simp
+    rw [if_neg (by decide), hp]
+    simp only [List.mapM_cons, List.mapM_nil, Option.pure_def, Option.bind_eq_bind, Option.bind_some,
+      List.getElem?_cons_zero, List.getElem_cons_zero]
+    cases a with
+    | list l =>
+      match l, ha with
+      | [], _ => rfl
+      | [y], ha => exact absurd rfl (ha y)
+      | _ :: _ :: _, _ => rfl
+    | _ => rfl
+  · have hi0 : ¬ i < 0 := by omega
+    have hi1 : i ≠ 0 := by omega
+    have hi2 : ¬ (vals.length : Int) < i := by omega
+    have hrow : (List.map (fun v => [v]) vals)[j]? = some [vals[j]] := by
+      simp [hlt]
+    simp only [hl1, if_false, hi0, hi1, hi2, decide_false, Bool.or_false, Bool.false_eq_true, hj, hrow,
+      List.mapM_cons, List.mapM_nil, Option.pure_def, Option.bind_eq_bind, Option.bind_some]
+    rfl
+
+/-- **INDEX(values, MATCH(v, keys, 0))**: the value next to the first key equal to `v` -/
+theorem index_match (lookup : Val) (krows keys vals : List Val) (i : Nat)
+    (hk : keysOf krows = some keys) (he : allEligible lookup keys = true)
+    (ht : textsModelled (lookup :: keys) = true) (hv : vals.length = keys.length)
+    (hlen : 2 ≤ keys.length ∨ ∀ v ∈ vals, ∀ y, v ≠ .list [y])
+    (hs : specFirstEqual true lookup keys = some i) :
+    ∃ v, vals[i - 1]? = some v ∧
+      matchFn lookup (.list krows) 0 = .ok (.int i) ∧
+      indexFn (.list (vals.map fun v => .list [v])) (.int i) .none = .ok v ∧
+      (matchFn lookup (.list krows) 0 >>= fun m => indexFn (.list (vals.map fun v => .list [v])) m .none) = .ok v := by
+  have hm : matchFn lookup (.list krows) 0 = .ok (.int i) := by
+    rw [match_exact_first lookup krows keys hk he ht, hs]; rfl
+  obtain ⟨j, hij, ⟨key, hkey, _⟩, _⟩ := first_equal_is_first true lookup keys i hs
+  obtain ⟨hj, _⟩ := List.getElem?_eq_some_iff.mp hkey
+  obtain ⟨v, hv1, hv2⟩ := index_column vals (i : Int) (by omega) (by omega) (by rw [hv]; exact hlen)
+  have hidx : ((i : Int) - 1).toNat = i - 1 := by omega
+  rw [hidx] at hv1
+  refine ⟨v, hv1, hm, hv2, ?_⟩
+  rw [hm]
+  exact hv2
 
 /-! ### column letters: bijective base 26 -/
 
@@ -184,14 +433,48 @@ theorem address_columns_roundtrip :
     (List.range 16384).all (fun i => colIndex (colLetters (i + 1)) == i + 1 && (colLetters (i + 1)).all isUpper) = true := by
   decide +kernel
 
+/-- … and for every column number, without a bound: number → letters → number -/
+theorem col_roundtrip (n : Nat) : colIndex (colLetters n) = n := by
+  have := LookupCols.colIndex_aux n n [] (Nat.le_refl n)
+  simpa [colLetters, colIndex] using this
+
+/-- the letters of a column number are upper-case letters, and there is at least one for `n ≥ 1` -/
+theorem col_letters_upper (n : Nat) : (colLetters n).all isUpper = true :=
+  LookupCols.aux_all_upper n n [] rfl
+
+theorem col_letters_ne_nil (n : Nat) (h : 1 ≤ n) : colLetters n ≠ [] := by
+  intro e
+  have := col_roundtrip n
+  rw [e] at this
+  simp [colIndex] at this
+  omega
+
+/-- letters → number → letters, for every non-empty word of upper-case letters -/
+theorem col_roundtrip_letters (s : List Char) (hs : s.all isUpper = true) : colLetters (colIndex s) = s := by
+  have := LookupCols.aux_colIndex s hs (colIndex s) [] (Nat.le_refl _)
+  simpa [colLetters] using this
+
 theorem address_spec (r : Int) (c : Nat) :
     addressFn r (c : Int) = .ok (.str (['$'] ++ colLetters c ++ ['$'] ++ (toString r).toList)) := by
   simp [addressFn]
 
 /-! ### non-vacuity -/
-example : matchFn (.int 5) (.list [.list [.int 1], .list [.flt 5], .list [.int 9]]) 0 = .ok (.int 2) := by decide +kernel
-example : matchFn (.int 10) (.list [.list [.int 1], .list [.flt 5], .list [.int 9]]) 1 = .ok (.int 3) := by decide +kernel
-example : xmatchFn (.int 2) (.list [.list [.int 1], .list [.int 2], .list [.int 2]]) 0 (-1) = .ok (.int 3) := by decide +kernel
+example : matchFn (.int 5) (.list [.list [.int 1], .list [.flt 5], .list [.int 9]]) 0 = .ok (.int 2) := by rfl
+example : matchFn (.int 10) (.list [.list [.int 1], .list [.flt 5], .list [.int 9]]) 1 = .ok (.int 3) := by rfl
+example : xmatchFn (.int 2) (.list [.list [.int 1], .list [.int 2], .list [.int 2]]) 0 (-1) = .ok (.int 3) := by rfl
+example : vlookupFn (.str ['b']) (.list [.list [.str ['a'], .int 1], .list [.str ['b'], .int 2]]) 2 (.bool false) =
+    .ok (.int 2) := by rfl
+example : indexFn (.list [.list [.int 1, .int 2], .list [.int 3, .int 4]]) (.int 2) (.int 1) = .ok (.int 3) := by rfl
+example : indexFn (.list [.list [.int 1, .int 2], .list [.int 3, .int 4]]) (.int 3) (.int 1) = .ok errRef := by rfl
+-- the hypotheses of the theorems can be met
+example : matchFn (.int 6) (.list [.list [.int 1], .list [.flt 5], .list [.int 9]]) 1 = .ok (.int 2) :=
+  match_approx_last_le (.int 6) _ [.int 1, .flt 5, .int 9] rfl rfl rfl rfl
+example : xmatchFn (.str ['b']) (.list [.list [.str ['B']], .list [.str ['a']], .list [.str ['b']]]) 0 (-1) =
+    .ok (.int 3) :=
+  xmatch_last (.str ['b']) _ [.str ['B'], .str ['a'], .str ['b']] rfl rfl rfl
+example : ∃ v, indexFn (.list [.list [.int 7], .list [.int 8]]) (.int 2) .none = .ok v :=
+  (index_match (.int 5) [.list [.int 4], .list [.int 5]] [.int 4, .int 5] [.int 7, .int 8] 2 rfl rfl rfl rfl
+    (Or.inl (Nat.le_refl 2)) rfl).elim fun v h => ⟨v, h.2.2.1⟩
 example : colLetters 26 = ['Z'] ∧ colLetters 27 = ['A', 'A'] ∧ colLetters 16384 = ['X', 'F', 'D'] := by decide +kernel
 
 end E2P.C14
